@@ -492,20 +492,18 @@ def _oracle_nm(case, obs):
     r = ref_fmin(f, x0, **kw)
     got = (obs["iter"], obs["funcalls"], obs["warnflag"])
     want = (r["iter"], r["funcalls"], r["warnflag"])
-    exact = got == want and obs["x"] == [float(v) for v in r["x"]] and obs["fval"] == r["fval"]
+    rx = [float(v) for v in r["x"]]
     site = NM_SITE + ("._Step" if case["kind"] == "nmapi" else ".fmin")
-    if not exact:
-        haszero = any(v == 0.0 for v in x0)
-        r2 = ref_fmin(f, x0, zdelt=MYSTIC_ZDELT, **kw) if haszero else None
-        if r2 is not None and (obs["iter"], obs["funcalls"], obs["warnflag"]) == (r2["iter"], r2["funcalls"], r2["warnflag"]) \
-           and obs["x"] == [float(v) for v in r2["x"]] and obs["fval"] == r2["fval"]:
-            # the only difference from the reference is the one-ulp zero-coordinate step
-            if got != want or not _close(obs["x"], [float(v) for v in r["x"]]):
-                out.append(_fail("nm_reproduces_reference", NM_SITE + "._setSimplexWithinRangeBoundary", "zdelt-one-ulp-off-reference",
-                                 dict(x0=x0, got=got, reference=want, x=obs["x"], ref_x=[float(v) for v in r["x"]])))
+    # "same minimizer and minimum to rounding, same iteration and evaluation counts"
+    if got != want or not _close(obs["x"], rx) or not _close([obs["fval"]], [r["fval"]]):
+        detail = dict(x0=x0, got=got, reference=want, x=obs["x"], ref_x=rx, fval=obs["fval"], ref_f=r["fval"])
+        r2 = ref_fmin(f, x0, zdelt=MYSTIC_ZDELT, **kw) if any(v == 0.0 for v in x0) else None
+        if r2 is not None and got == (r2["iter"], r2["funcalls"], r2["warnflag"]) and obs["x"] == [float(v) for v in r2["x"]] \
+           and obs["fval"] == r2["fval"]:
+            # explained completely by the one-ulp zero-coordinate step of the initial simplex
+            out.append(_fail("nm_reproduces_reference", NM_SITE + "._setSimplexWithinRangeBoundary", "zdelt-one-ulp-off-reference", detail))
         else:
-            out.append(_fail("nm_reproduces_reference", site, "differs-from-reference",
-                             dict(got=got, reference=want, x=obs["x"], ref_x=[float(v) for v in r["x"]], fval=obs["fval"], ref_f=r["fval"])))
+            out.append(_fail("nm_reproduces_reference", site, "differs-from-reference", detail))
     if obs["funcalls"] != len(obs["cost"]):
         out.append(_fail("nm_counts", site, "funcalls-not-number-of-objective-calls", [obs["funcalls"], len(obs["cost"])]))
     if obs["allvecs"] is not None and len(obs["allvecs"]) != obs["iter"] + 1:
@@ -626,16 +624,20 @@ def _oracle_powell(case, obs):
     f = objective(case["obj"])
     kw = dict(xtol=case["xtol"], ftol=case["ftol"], maxiter=case["maxiter"], maxfun=case["maxfun"], direc=case.get("direc"))
 
-    def same(r):
-        return ((obs["iter"], obs["funcalls"], obs["warnflag"]) == (r["iter"], r["funcalls"], r["warnflag"])
-                and obs["x"] == [float(v) for v in r["x"]] and obs["fval"] == r["fval"]
-                and obs["direc"] == [[float(v) for v in row] for row in r["direc"]])
+    def same(r, exact=False):
+        rx, rd = [float(v) for v in r["x"]], [float(v) for row in r["direc"] for v in row]
+        od = [v for row in obs["direc"] for v in row]
+        if (obs["iter"], obs["funcalls"], obs["warnflag"]) != (r["iter"], r["funcalls"], r["warnflag"]):
+            return False
+        if exact:
+            return obs["x"] == rx and obs["fval"] == r["fval"] and od == rd
+        return _close(obs["x"], rx) and _close([obs["fval"]], [r["fval"]]) and _close(od, rd)
     r = ref_fmin_powell(f, case["x0"], bundled.brent, **kw)
     if not same(r):
         r2 = ref_fmin_powell(f, case["x0"], bundled.brent, first_test=False, **kw)
         detail = dict(got=[obs["iter"], obs["funcalls"], obs["warnflag"], obs["fval"]], reference=[r["iter"], r["funcalls"], r["warnflag"], r["fval"]],
                       x=obs["x"], ref_x=[float(v) for v in r["x"]])
-        if r["iter"] == 1 and r["warnflag"] == 0 and same(r2):
+        if r["iter"] == 1 and r["warnflag"] == 0 and same(r2, exact=True):
             out.append(_fail("powell_reproduces_reference", PW_SITE, "no-stop-test-after-first-sweep", detail))
         else:
             out.append(_fail("powell_reproduces_reference", PW_SITE, "differs-from-reference", detail))
